@@ -222,6 +222,19 @@ def path_contract(tier, seed):
                         bad('etree_iter_paths (absolute): the path does not select exactly the element', f'{p!r} selects {got!r:.160}', tree=repr(t)[:300], lib=lib)
             except ElementPathError as ex:
                 bad('etree_iter_paths (absolute): the path cannot be evaluated', f'{type(ex).__name__}: {str(ex)[:100]}', tree=repr(t)[:300], lib=lib)
+            # an empty start path: every path is relative to the start element (also those of its comment and processing instruction children)
+            try:
+                ctx_item = rn if isinstance(rn, ElementNode) else rn.getroot()
+                for e, p in etree_iter_paths(root_elem, path=''):
+                    if p == '':
+                        continue
+                    n += 1
+                    got = _select(rd if lib == 'lxml' else rn, p, item=rd.getroot() if lib == 'lxml' else ctx_item)
+                    if len(got) != 1 or getattr(got[0], 'elem', None) is not e:
+                        bad('etree_iter_paths (empty start path): the path does not select exactly the node from the start element', f'{p!r} selects {got!r:.160}',
+                            tree=repr(t)[:300], lib=lib)
+            except ElementPathError as ex:
+                bad('etree_iter_paths (empty start path): the path cannot be evaluated', f'{type(ex).__name__}: {str(ex)[:100]}', tree=repr(t)[:300], lib=lib)
             if len({p for _, p in pairs}) != len(pairs):
                 bad('etree_iter_paths: two elements share one path', repr([p for _, p in pairs])[:200], tree=repr(t)[:300], lib=lib)
     # documents built by fn:parse-xml-fragment: top-level text, comment and PI nodes are children of the document node
